@@ -654,4 +654,242 @@ theorem evLoopLive_err (c : Cfg) (r : EvReq) : ∀ (later : List (List Ev)) (b :
       · injection h with h; exact h.symm
       · exact ih _ _ _ h
 
+/-! ## the frozen queue is the special case of a live queue that does not change -/
+
+/-- **the frozen model is the empty schedule** -/
+theorem evLoopLive_nil (c : Cfg) (r : EvReq) (s : ESt) :
+    evLoopLive c r [] r.buf s = evLoop c r (r.buf.length + 1) s := rfl
+
+theorem eventSectionLive_nil (c : Cfg) (s : ESt) (re : Option EvReq) :
+    eventSectionLive c s [] re = eventSection c s re := by
+  cases re with
+  | none => rfl
+  | some r => rfl
+
+theorem respondLive_nil (c : Cfg) (r : Req) : respondLive c r [] = respond c r := by
+  unfold respondLive respond
+  cases attrSection c r.attrs with
+  | error e => rfl
+  | ok s1 =>
+    simp only [eventSectionLive_nil]
+    cases eventSection c s1 r.events with
+    | error e => rfl
+    | ok s2 => rfl
+
+/-- when every fetch sees the same buffer, the live specification says: exactly the pending selected
+events of that buffer, each once, in buffer order -/
+theorem LiveSpec.frozen {r : EvReq} {k : Nat} {tr : List Fetch} (h : LiveSpec r k tr) (b : List Ev)
+    (hb : ∀ f ∈ tr, f.buf = b) : emittedAll tr = pendingAt r k b := by
+  induction h with
+  | @last k f h1 h2 h3 =>
+    have := h1.split
+    rw [h1.done h3, List.append_nil, h2, hb f (by simp)] at this
+    simp [emittedAll, this]
+  | @more k f fs h1 h2 _ _ ih =>
+    have := h1.split
+    rw [h2, hb f (by simp)] at this
+    rw [this, ← ih (fun g hg => hb g (by simp [hg]))]
+    simp [emittedAll]
+
+theorem envOf_mem : ∀ (later : List (List Ev)) (b : List Ev) (i : Nat), envOf b later i ∈ b :: later := by
+  intro later
+  induction later with
+  | nil => intro b i; rw [envOf_nil]; simp
+  | cons b2 l ih =>
+    intro b i
+    cases i with
+    | zero => show b ∈ _; simp
+    | succ i => show envOf b2 l i ∈ _; exact List.mem_cons_of_mem _ (ih b2 i)
+
+/-! ## the event section and the whole answer over a live queue -/
+
+/-- the status reports of the concrete paths that do not validate -/
+def statusPieces (r : EvReq) : List EvPiece := r.statuses.zipIdx.map fun (sz, k) => EvPiece.status k sz
+
+/-- **the event reports of a live answer**: the statuses, then what a chain of fetches that meets
+`LiveSpec` reports, the `i`-th fetch reading the queue as it is at that moment (`envOf`), with at
+most two fetches that report nothing (the first and the last) -/
+def LiveEvents (later : List (List Ev)) (re : Option EvReq) (evs : List EvPiece) : Prop :=
+  match re with
+  | none => evs = []
+  | some r => ∃ tr, LiveSpec r r.maxSeen tr ∧ (∀ i f, tr[i]? = some f → f.buf = envOf r.buf later i) ∧
+      tr.length ≤ (emittedAll tr).length + 2 ∧ evs = statusPieces r ++ (emittedAll tr).map evData
+
+theorem putEvStatuses_emptyL {c : Cfg} : ∀ (szs : List Nat) (k : Nat) (s s2 : ESt), EmptyL s →
+    putEvStatuses c k szs s = .ok s2 → EmptyL s2 := by
+  intro szs
+  induction szs with
+  | nil => intro k s s2 h hp; simp [putEvStatuses] at hp; subst hp; exact h
+  | cons sz szs ih =>
+    intro k s s2 _ hp
+    simp only [putEvStatuses] at hp
+    cases h1 : putEvStatus c s k sz with
+    | error e => rw [h1] at hp; cases hp
+    | ok s1 =>
+      rw [h1] at hp
+      refine ih (k + 1) s1 s2 ?_ hp
+      intro he
+      rw [putEvStatus_empty h1] at he
+      cases he
+
+theorem eventSectionLive_ok {c : Cfg} (hw : c.WF) {s s2 : ESt} {later : List (List Ev)} {re : Option EvReq}
+    (h : AInv c s) (hemp : EmptyL s) (ho : OInv s)
+    (hasc : ∀ r, re = some r → ∀ b ∈ r.buf :: later, Asc b)
+    (hp : eventSectionLive c s later re = .ok s2) :
+    FInv c s2 ∧ EmptyL s2 ∧ OInv s2 ∧ s2.flatAt = s.flatAt ∧
+      ∃ evs, LiveEvents later re evs ∧ s2.flatEv = s.flatEv ++ evs := by
+  cases re with
+  | none =>
+    simp only [eventSectionLive] at hp
+    injection hp with hp; subst hp
+    exact ⟨⟨h.usedLe, by have := h.limLe; omega, h.doneOk⟩, hemp, ho, rfl, [], rfl, by simp⟩
+  | some r =>
+    simp only [eventSectionLive] at hp
+    cases hx : expand c s.lim c.evOpen with
+    | error e => rw [hx] at hp; cases hp
+    | ok lim =>
+      rw [hx] at hp
+      simp only at hp
+      obtain rfl := expand_ok hx
+      split at hp
+      · rename_i hfit
+        have i1 : EInv c { s with lim := s.lim + c.evOpen, used := s.used + c.evOpen, base := s.used + c.evOpen, cursor := r.maxSeen } := by
+          refine ⟨hfit, by have := h.limLe; simp only; omega, h.doneOk, ?_⟩
+          intro hf
+          obtain ⟨h1, h2⟩ := h.freshOk hf
+          simp only; omega
+        have e1 : EmptyL { s with lim := s.lim + c.evOpen, used := s.used + c.evOpen, base := s.used + c.evOpen, cursor := r.maxSeen } := hemp
+        have o1 : OInv { s with lim := s.lim + c.evOpen, used := s.used + c.evOpen, base := s.used + c.evOpen, cursor := r.maxSeen } := ho
+        cases hst : putEvStatuses c 0 r.statuses { s with lim := s.lim + c.evOpen, used := s.used + c.evOpen, base := s.used + c.evOpen, cursor := r.maxSeen } with
+        | error e => rw [hst] at hp; cases hp
+        | ok s3 =>
+          rw [hst] at hp
+          simp only at hp
+          obtain ⟨i2, f2, a2, c2⟩ := putEvStatuses_ok hw _ _ _ _ i1 hst
+          have e2 := putEvStatuses_emptyL _ _ _ _ e1 hst
+          have o2 := putEvStatuses_ordered _ _ _ _ o1 hst
+          rw [evLoopLive_eq_env] at hp
+          cases hlo : evLoopEnv c r (liveFuel r.buf later) (envOf r.buf later) s3 with
+          | error e => rw [hlo] at hp; cases hp
+          | ok s4 =>
+            rw [hlo] at hp
+            simp only at hp
+            have hasc2 : ∀ i, Asc (envOf r.buf later i) := fun i => hasc r rfl _ (envOf_mem later r.buf i)
+            obtain ⟨sp1, sp2⟩ := evLoopEnv_spec c r _ _ _ _ hasc2 hlo
+            obtain ⟨i3, f3, a3, e3, o3⟩ := evLoopEnv_inv hw r _ _ _ _ i2 hlo
+            have hlen := traceEnv_length c r _ _ _ _ hlo
+            cases hx2 : expand c s4.lim c.close with
+            | error e => rw [hx2] at hp; cases hp
+            | ok lim2 =>
+              rw [hx2] at hp
+              simp only at hp
+              obtain rfl := expand_ok hx2
+              split at hp
+              · rename_i hfit2
+                injection hp with hp; subst hp
+                refine ⟨⟨hfit2, by have := i3.limLe; simp only; omega, i3.doneOk⟩, e3 e2, o3 o2, ?_, ?_⟩
+                · show s4.flatAt = s.flatAt
+                  rw [a3, a2]; rfl
+                · have hc : s3.cursor = r.maxSeen := c2
+                  rw [hc] at sp1
+                  refine ⟨_, ⟨_, sp1, sp2, ?_, rfl⟩, ?_⟩
+                  · split at hlen <;> omega
+                  · show s4.flatEv = s.flatEv ++ _
+                    rw [f3, f2]
+                    simp [statusPieces, ESt.flatEv]
+              · cases hp
+      · cases hp
+
+theorem flatMap_pieces_nil (l : List ChunkOut) (h : ∀ ch ∈ l, ch.pieces = []) :
+    l.flatMap (·.pieces) = [] := by
+  induction l with
+  | nil => rfl
+  | cons a l ih =>
+    simp only [List.flatMap_cons, h a (by simp), List.nil_append]
+    exact ih (fun ch hch => h ch (by simp [hch]))
+
 end Chunk
+
+namespace C14
+open Chunk
+
+/-- what a well-behaved answer `cs` looks like when the event queue changes between the chunks
+(`later` = the queue at the second, third, … fetch) -/
+structure GoodLive (c : Cfg) (r : Req) (later : List (List Ev)) (cs : List ChunkOut) : Prop where
+  /-- the attribute side is what `report_attributes` wrote — the part of the answer that does not
+  depend on the queue (described by `attrSection_ok`) -/
+  attrs : ∃ s1, attrSection c r.attrs = .ok s1 ∧ cs.flatMap (·.pieces) = s1.flatAt
+  /-- the event reports meet the live specification -/
+  events : LiveEvents later r.events (cs.flatMap (·.events))
+  /-- fits the transport's maximum size -/
+  bounded : ∀ ch ∈ cs, ch.size ≤ c.cap
+  /-- no attribute report follows an event report -/
+  order : Ordered cs
+  /-- only the last message ends the interaction.  Left disjunct: the final message is not sent
+  because nothing at all was reported and empty reports are suppressed — then every message that WAS
+  sent carries no report (over a frozen queue: no message was sent; over a live one see `orphan_chunk`) -/
+  lastEnds : (r.sendIfEmpty = false ∧ cs.flatMap (·.pieces) = [] ∧ cs.flatMap (·.events) = [] ∧
+      ∀ ch ∈ cs, ch.more = true) ∨
+    ∃ front last, cs = front ++ [last] ∧ last.more = false ∧ ∀ ch ∈ front, ch.more = true
+
+/-- **C14 over a live queue**: whatever the sizes and whatever is pushed into the queue between the
+chunks (every buffer a fetch sees iterates in ascending order: `liveBufs_ascending`), an answer of the
+responder is `GoodLive` -/
+theorem respondLive_good {c : Cfg} {r : Req} {later : List (List Ev)} {cs : List ChunkOut} (hw : c.WF)
+    (hasc : ∀ e, r.events = some e → ∀ b ∈ e.buf :: later, Asc b)
+    (h : respondLive c r later = .ok cs) : GoodLive c r later cs := by
+  unfold respondLive at h
+  cases h1 : attrSection c r.attrs with
+  | error e => rw [h1] at h; cases h
+  | ok s1 =>
+    rw [h1] at h
+    simp only at h
+    cases h2 : eventSectionLive c s1 later r.events with
+    | error e => rw [h2] at h; cases h
+    | ok s2 =>
+      rw [h2] at h
+      simp only at h
+      obtain ⟨a1, e1, f1, _⟩ := attrSection_ok hw h1
+      obtain ⟨a2, e2, o2, fa2, evs, hev, fe2⟩ :=
+        eventSectionLive_ok hw a1 e1.toL (attrSection_ordered hw h1) hasc h2
+      rw [f1, List.nil_append] at fe2
+      split at h
+      · rw [sendDone_ok hw a2] at h
+        injection h with h
+        subst h
+        refine ⟨⟨s1, h1, ?_⟩, ?_, ?_, ?_, ?_⟩
+        · rw [← fa2]; simp [ESt.flatAt, List.flatMap_append]
+        · have : (({ pieces := s2.attrs.reverse, events := s2.evs.reverse, size := s2.used + c.trailerDone, more := false } :: s2.done).reverse).flatMap (·.events) = s2.flatEv := by
+            simp [ESt.flatEv, List.flatMap_append]
+          rw [this, fe2]; exact hev
+        · intro ch hch
+          simp only [List.mem_reverse, List.mem_cons] at hch
+          rcases hch with rfl | hch
+          · have := a2.usedLe; have := a2.limLe; have := hw.trailerDone; simp only; omega
+          · exact (a2.doneOk ch hch).2
+        · unfold OInv ESt.all at o2
+          simp only [List.reverse_cons]
+          exact ordered_last _ _ _ o2 rfl
+        · refine .inr ⟨s2.done.reverse, { pieces := s2.attrs.reverse, events := s2.evs.reverse, size := s2.used + c.trailerDone, more := false }, by simp, rfl, ?_⟩
+          intro ch hch
+          exact (a2.doneOk ch (List.mem_reverse.mp hch)).1
+      · rename_i hsup
+        injection h with h
+        subst h
+        simp only [Bool.or_eq_true, Bool.not_eq_eq_eq_not, Bool.not_true, not_or, Bool.not_eq_true,
+          Bool.not_eq_false] at hsup
+        obtain ⟨ha, he, hd⟩ := e2 hsup.2
+        have hp0 : s2.done.reverse.flatMap (·.pieces) = [] :=
+          flatMap_pieces_nil _ (fun ch hch => (hd ch (List.mem_reverse.mp hch)).1)
+        have he0 : s2.done.reverse.flatMap (·.events) = [] :=
+          flatMap_events_nil _ (fun ch hch => (hd ch (List.mem_reverse.mp hch)).2)
+        have hat : s2.flatAt = [] := by simp [ESt.flatAt, hp0, ha]
+        have hev0 : s2.flatEv = [] := by simp [ESt.flatEv, he0, he]
+        refine ⟨⟨s1, h1, by rw [hp0, ← fa2, hat]⟩, ?_, ?_, ?_, ?_⟩
+        · rw [he0, ← hev0, fe2]; exact hev
+        · intro ch hch
+          exact (a2.doneOk ch (List.mem_reverse.mp hch)).2
+        · exact ordered_of_no_events _ (fun ch hch => (hd ch (List.mem_reverse.mp hch)).2)
+        · exact .inl ⟨hsup.1, hp0, he0, fun ch hch => (a2.doneOk ch (List.mem_reverse.mp hch)).1⟩
+
+end C14
